@@ -22,36 +22,39 @@ fn has_null(v: &Value) -> bool {
 enum Snap {
 	J(Value),
 	B(SV),
+	/// positional flavour of the bit-exact tree
+	P(SV),
 }
 impl Snap {
 	fn json_with_null(&self) -> bool {
 		matches!(self, Snap::J(v) if has_null(v))
 	}
 	fn nonfinite(&self) -> bool {
-		matches!(self, Snap::B(v) if v.has_nonfinite())
+		matches!(self, Snap::B(v) | Snap::P(v) if v.has_nonfinite())
 	}
 	fn restore_m(&self, inst: &dyn reg::DM) -> Result<Box<dyn reg::DM>, String> {
 		match self {
 			Snap::J(v) => inst.de(v),
-			Snap::B(v) => inst.de_b(v),
+			Snap::B(v) | Snap::P(v) => inst.de_b(v),
 		}
 	}
 	fn same_as_m(&self, rs: &dyn reg::DM) -> bool {
 		match self {
 			Snap::J(v) => rs.ser().ok().as_ref() == Some(v),
 			Snap::B(v) => rs.ser_b().ok().as_ref() == Some(v),
+			Snap::P(v) => rs.ser_p().ok().as_ref() == Some(v),
 		}
 	}
 	fn restore_i(&self, inst: &dyn reg::DI) -> Result<Box<dyn reg::DI>, String> {
 		match self {
 			Snap::J(v) => inst.de(v),
-			Snap::B(v) => inst.de_b(v),
+			Snap::B(v) | Snap::P(v) => inst.de_b(v),
 		}
 	}
 	fn same_as_i(&self, rs: &dyn reg::DI) -> bool {
 		match self {
 			Snap::J(v) => rs.ser().ok().as_ref() == Some(v),
-			Snap::B(v) => rs.ser_b().ok().as_ref() == Some(v),
+			Snap::B(v) | Snap::P(v) => rs.ser_b().ok().as_ref() == Some(v),
 		}
 	}
 }
@@ -98,10 +101,10 @@ fn snapshot_method(m: &MDesc, len: u64, class: usize, seed: u64, all_k: bool, r:
 	for k in 0..=pre {
 		if ks.contains(&k) {
 			// two routes: JSON value (+ text), and the bit-exact tree of sv.rs (which can carry NaN / inf state)
-			for route in 0..2 {
+			for route in 0..3 {
 			r.eval(1);
 			r.case_named(m.name, &[13, reg::json_hash(&par.show()), class as u64, seed, k as u64, route]);
-			let snap = match guard(|| if route == 0 { inst.ser().map(Snap::J) } else { inst.ser_b().map(Snap::B) }) {
+			let snap = match guard(|| match route { 0 => inst.ser().map(Snap::J), 1 => inst.ser_b().map(Snap::B), _ => inst.ser_p().map(Snap::P) }) {
 				Ok(Ok(v)) => v,
 				Ok(Err(e)) => {
 					r.violate(&format!("C13|{}|serialize-error", m.name), &e, || case(k, "serialize"));
